@@ -95,7 +95,7 @@ type putResp struct {
 
 func (env *httpEnv) do(method, target string, body []byte) (resp putResp, panicked bool, msg string) {
 	rec := httptest.NewRecorder()
-	req := httptest.NewRequest(method, target, bytes.NewReader(body))
+	req := withLocal(httptest.NewRequest(method, target, bytes.NewReader(body)))
 	req.RemoteAddr = env.conn.addr
 	msg, panicked = safely(func() { env.srv.Mux.ServeHTTP(rec, req) })
 	resp.Code = rec.Code
